@@ -21,6 +21,9 @@ import (
 // ($calls_<name> in contracts is the difference to the entry state).
 const callsKind = "int@calls"
 
+// mapUpdateName: pseudo-callee under which map assignments are counted ($calls_mapupdate)
+const mapUpdateName = "mapupdate"
+
 func callsID(name string) int64 {
 	h := fnv.New32a()
 	h.Write([]byte(name))
